@@ -802,8 +802,10 @@ package calendar
 
 //@ # the lunar-year object and the lunar date's New-Year-based year accessors
 //@ ghost func yearObjectAgrees(l *Lunar) [C11]
+//@   reveal yearStarCode
 //@   requires 1 <= l.year && l.year <= 9998
 //@   body
+//@     yearStarArith(l.year)
 //@     y := NewLunarYear(l.year)
 //@     assert(y.GetGanIndex() == l.GetYearGanIndex() && y.GetZhiIndex() == l.GetYearZhiIndex())
 //@     assert(y.GetGan() == l.GetYearGan() && y.GetZhi() == l.GetYearZhi() && y.GetGanZhi() == l.GetYearInGanZhi())
@@ -869,29 +871,67 @@ package calendar
 //@   split n in 0..59
 
 //@ # the library's year-star arithmetic (60-cycle position, the three 60-year eras) is the plain rule (2026 - year) mod 9
-//@ spec func yearStarCode(py int) int
+//@ opaque spec func yearStarCode(py int) int
 //@   = ite(modf(62+3*modf(divf(py+2696, 60), 3)-(modf(py-4, 60)+1), 9) == 0, 8, modf(62+3*modf(divf(py+2696, 60), 3)-(modf(py-4, 60)+1), 9)-1)
 
 //@ lemma yearStarArith(py int) [C16]
+//@   reveal yearStarCode
 //@   requires 0 <= py && py <= 10000
 //@   ensures yearStarCode(py) == modf(2026-py, 9)
 //@   split modf(py, 9) in 0..8
 
-//@ # The year star itself is not proved end to end (the 60-cycle scan combined with the era arithmetic does not
-//@ # discharge within the budget); what is proved: the scan finds the cycle position of the New-Year pillar, and the
-//@ # era arithmetic on a pillar year equals the plain rule (lemma yearStarArith). The composition for the three
-//@ # conventions is executed by the bounded stand-in nine_star.
-//@ ghost func yearStarParts(l *Lunar) [C16]
-//@   body
-//@     jiaZiOfCycle(modf(l.year-4, 60))
-//@     assert(LunarUtil.GetJiaZiIndex(l.GetYearInGanZhi()) == modf(l.year-4, 60))
-//@     a := l.GetYearNineStarBySect(1)
-//@     assert(0 <= a.index && a.index <= 8)
+//@ # year star: the scan position e of the pillar passed in and the lunar year give the pillar year lunar.year + off with
+//@ # off in {-1, 0, 1} (the pillar passed in may be the previous or the next one around Lichun), and the star is
+//@ # yearStarCode of that year, i.e. (2026 - pillar year) mod 9 by lemma yearStarArith
+//@ spec func starOff(e int, y int) int
+//@   = ite(e-modf(y-4, 60) > 1, e-modf(y-4, 60)-60, ite(e-modf(y-4, 60) < -1, e-modf(y-4, 60)+60, e-modf(y-4, 60)))
+//@ func (lunar *Lunar) getYearNineStar(yearInGanZhi string) *NineStar [C16]
+//@   reveal yearStarCode
+//@   requires 1 <= lunar.year && 0 <= LunarUtil.GetJiaZiIndex(yearInGanZhi) && LunarUtil.GetJiaZiIndex(yearInGanZhi) <= 59
+//@   requires -1 <= starOff(LunarUtil.GetJiaZiIndex(yearInGanZhi), lunar.year) && starOff(LunarUtil.GetJiaZiIndex(yearInGanZhi), lunar.year) <= 1
+//@   ensures result.index == yearStarCode(lunar.year+starOff(LunarUtil.GetJiaZiIndex(yearInGanZhi), lunar.year))
+//@   use jiaZiOfPair(lunar.yearGanIndex, lunar.yearZhiIndex)
+//@   use cycOfNumber(lunar.year-4)
+//@   ghost E int = LunarUtil.GetJiaZiIndex(yearInGanZhi) @ indexExact#1
+//@   cut indexExact#1: indexExact == E+1
+//@   cut index#1: index == modf(lunar.year-4, 60)+1
+//@   cut yearOffset#2: yearOffset == starOff(E, lunar.year)
+//@   split starOff(E, lunar.year) in -1..1
+
+//@ # the year object's star: the same rule on the lunar year
+//@ func (lunarYear *LunarYear) GetNineStar() *NineStar [C16 C11]
+//@   reveal yearStarCode
+//@   requires 1 <= lunarYear.year
+//@   ensures result.index == modf(2026-lunarYear.year, 9)
+//@   use jiaZiOfPair(lunarYear.ganIndex, lunarYear.zhiIndex)
+//@   use cycOfNumber(lunarYear.year-4)
+//@   use yearStarArith(lunarYear.year)
+//@   cut index#1: index == modf(lunarYear.year-4, 60)+1
+
+//@ func (lunar *Lunar) GetYearNineStarBySect(sect int) *NineStar [C16]
+//@   requires implies(sect != 1, lunar.year <= lunar.solar.year) && 1 <= lunar.year && 0 <= sect && sect <= 4
+//@   ensures result.index == modf(2026-ite(sect == 1, lunar.year, ite(sect == 3, pyLiChunExact(lunar), pyLiChunDay(lunar))), 9)
+//@   use jiaZiOfPair(lunar.yearGanIndex, lunar.yearZhiIndex)
+//@   use jiaZiOfPair(lunar.yearGanIndexByLiChun, lunar.yearZhiIndexByLiChun)
+//@   use jiaZiOfPair(lunar.yearGanIndexExact, lunar.yearZhiIndexExact)
+//@   use cycOfNumber(lunar.year-4)
+//@   use cycOfNumber(pyLiChunDay(lunar)-4)
+//@   use cycOfNumber(pyLiChunExact(lunar)-4)
+//@   use yearStarArith(lunar.year)
+//@   use yearStarArith(pyLiChunDay(lunar))
+//@   use yearStarArith(pyLiChunExact(lunar))
+//@   hint yearInGanZhi#2: LunarUtil.GetJiaZiIndex(yearInGanZhi) == modf(ite(sect == 1, lunar.year, ite(sect == 3, pyLiChunExact(lunar), pyLiChunDay(lunar)))-4, 60)
+//@   split sect in 0..4
+//@   split ite(modf(lunar.year-4, 60) == 0, 0, ite(modf(lunar.year-4, 60) == 59, 2, 1)) in 0..2
+//@   split ite(sect == 1, 0, ite(sect == 3, pyLiChunExact(lunar), pyLiChunDay(lunar))-lunar.year) in -1..1
+
+//@ func (lunar *Lunar) GetYearNineStar() *NineStar [C16 C08]
+//@   requires lunar.year <= lunar.solar.year && 1 <= lunar.year
+//@   ensures result.index == modf(2026-pyLiChunDay(lunar), 9)
 
 //@ # year star, part 2: under each of the three conventions the sixty-cycle scan finds the position of the pillar year
 //@ # ((pillar year - 4) mod 60: the lunar year, the year by the Lichun day, the year by the Lichun instant); together
-//@ # with yearStarArith this is the rule (2026 - pillar year) mod 9. The last step - pushing these equalities through
-//@ # the 120-alternative scan inside getYearNineStar - is not closed by the solvers and stays with the stand-in nine_star.
+//@ # with yearStarArith this is the rule (2026 - pillar year) mod 9 (kept as a separate lemma; the contracts above use the same facts).
 //@ ghost func yearStarPositions(l *Lunar) [C16]
 //@   requires l.year <= l.solar.year && 1 <= l.year
 //@   body
